@@ -44,7 +44,9 @@ const (
 )
 
 type k11Op struct {
-	K     string `json:"k"` // lock unlock tick hold release | cluster: demote ackfault
+	K     string `json:"k"` // lock unlock tick hold release | cluster: stall unstall demote
+	F     int    `json:"f,omitempty"`    // cluster: follower index
+	Mode  string `json:"mode,omitempty"` // unstall: pass | negate | drop
 	C     int    `json:"c,omitempty"`
 	Key   int    `json:"key,omitempty"`
 	Id    int    `json:"id,omitempty"`
@@ -76,6 +78,10 @@ func (o k11Op) String() string {
 		return fmt.Sprintf("tick %d", o.N)
 	case "release":
 		return "release fault=" + o.Fault
+	case "stall":
+		return fmt.Sprintf("stall f%d", o.F)
+	case "unstall":
+		return fmt.Sprintf("unstall f%d mode=%s", o.F, o.Mode)
 	}
 	return o.K
 }
@@ -88,18 +94,8 @@ type k11Case struct {
 	Clients  int     `json:"clients"`
 	Ops      []k11Op `json:"ops"`
 	// cluster only (c11_cluster_test.go)
-	Followers int        `json:"followers,omitempty"`
-	AckMode   int        `json:"ackmode,omitempty"`
-	Plan      []k11Fault `json:"plan,omitempty"`
-}
-
-// k11Fault is one entry of a cluster fault plan (c11_cluster_test.go): what the proxy of follower F does
-// to the N-th acknowledgement frame it sees.
-type k11Fault struct {
-	F    int    `json:"f"`
-	N    int    `json:"n"`
-	What string `json:"what"` // negate | drop | delay
-	Ms   int    `json:"ms,omitempty"`
+	Followers int `json:"followers,omitempty"`
+	AckMode   int `json:"ackmode,omitempty"` // 1 majority, 2 all
 }
 
 func k11IdIdx(id [16]byte) int { return (int(id[0]) | int(id[1])<<8 | int(id[2])<<16) - 1 }
@@ -109,9 +105,6 @@ func (c *k11Case) fingerprint() uint64 {
 	for _, o := range c.Ops {
 		sb.WriteString(o.String())
 		sb.WriteByte(';')
-	}
-	for _, f := range c.Plan {
-		sb.WriteString(fmt.Sprintf("%+v;", f))
 	}
 	return vHash(c.Kind, c.Conc, c.FastKeys, c.AofBuf, c.Clients, c.Followers, c.AckMode, sb.String())
 }
@@ -152,6 +145,8 @@ type k11Req struct {
 	// answered TIMEOUT while the ledger had it queued: it may have left the queue and become ack-pending
 	// inside the same clock sweep (the harness cannot observe in between)
 	maybePending bool
+	doomed       bool // cluster: an acknowledgement it needs was lost with a cut connection; only its timeout can answer it
+	exactUndo    bool // the roll-back of its value operation is exact in the state it was sent in (see k11RollbackExact)
 }
 
 type k11Hold struct {
@@ -279,10 +274,13 @@ type k11Env struct {
 
 	// cluster hooks (nil on a single node)
 	ackGate func(r *k11Req) string // extra ordering check at SUCCED time
+	anyNegative func(r *k11Req) bool // a negative ack frame for r has been handed to the leader
+	stuck   func() bool            // true: no acknowledgement can complete without the harness acting
+	epoch   int64
 }
 
 func (e *k11Env) logf(format string, a ...interface{}) {
-	e.hist = append(e.hist, fmt.Sprintf("[t+%d] ", e.now-k11Epoch)+fmt.Sprintf(format, a...))
+	e.hist = append(e.hist, fmt.Sprintf("[t+%d] ", e.now-e.epoch)+fmt.Sprintf(format, a...))
 }
 
 func (e *k11Env) viol(key string, format string, a ...interface{}) {
@@ -319,7 +317,7 @@ func k11NewEnv(c *k11Case, opts vInstOpts, inst *vInst) (*k11Env, error) {
 			return nil, err
 		}
 	}
-	e := &k11Env{c: c, inst: inst, now: k11Epoch, keys: map[int]*k11Key{}, succ: map[string]int{}}
+	e := &k11Env{c: c, inst: inst, now: k11Epoch, epoch: k11Epoch, keys: map[int]*k11Key{}, succ: map[string]int{}}
 	e.info.failResults, e.info.valueKindsFailed = map[string]bool{}, map[string]bool{}
 	e.known = vIsKnown
 	d := inst.slock.GetOrNewDB(0)
@@ -504,7 +502,7 @@ func (e *k11Env) onPendingFailed(k *k11Key, h *k11Hold, r *k11Req, rp *k11Reply,
 	if err != nil {
 		e.viol("C11:value-not-restored", "%s reply to failed ack request #%d carries a malformed value frame: %v", aResultName(rp.Result), r.Idx, err)
 	} else if !aValueEqual(got, r.pre) {
-		e.viol("C11:value-not-restored", "request #%d (%v) %s: its %s reply carries value %s, the value before the request was %s", r.Idx, r.Op, why, aResultName(rp.Result), got.String(), r.pre.String())
+		e.viol(k11UndoKey(r), "request #%d (%v) %s: its %s reply carries value %s, the value before the request was %s", r.Idx, r.Op, why, aResultName(rp.Result), got.String(), r.pre.String())
 		e.sig("reply op=%s before=%s after=%s", r.Op.V.Op, k11ValKind(r.pre), k11ValKind(got))
 	}
 	r.undoCheck = true
@@ -595,8 +593,11 @@ func (e *k11Env) onLockReply(k *k11Key, r *k11Req, rp *k11Reply) {
 		switch r.State {
 		case k11Pending:
 			e.info.ackTimedOut++
+			if r.doomed {
+				e.info.failedByFollower++
+			}
 			if e.now-r.Time < int64(r.Op.T) {
-				e.viol("C11:early-ack-timeout", "ack wait of request #%d (T=%d, sent at t+%d) timed out at t+%d", r.Idx, r.Op.T, r.Time-k11Epoch, e.now-k11Epoch)
+				e.viol("C11:early-ack-timeout", "ack wait of request #%d (T=%d, sent at t+%d) timed out at t+%d", r.Idx, r.Op.T, r.Time-e.epoch, e.now-e.epoch)
 			}
 			e.onPendingFailed(k, h, r, rp, "ack wait timed out")
 		case k11Queued:
@@ -626,6 +627,20 @@ func (e *k11Env) onLockReply(k *k11Key, r *k11Req, rp *k11Reply) {
 				why = "value write failed"
 				e.info.ackFailedData++
 				e.info.dataFaultFailed++
+			case "negative-ack":
+				why = "follower acknowledged negatively"
+				e.info.failedByFollower++
+			case "demotion":
+				why = "leader demoted"
+			default:
+				if e.inst.slock.state != STATE_LEADER {
+					why = "leader demoted"
+				} else if e.anyNegative != nil && e.anyNegative(r) {
+					why = "follower acknowledged negatively"
+					e.info.failedByFollower++
+				} else {
+					e.viol("C11:failed-without-cause", "ack-required request #%d (%v) was answered %s although no write failed, no acknowledgement was negative or lost, the wait did not time out and the node is still leader", r.Idx, r.Op, aResultName(rp.Result))
+				}
 			}
 			e.onPendingFailed(k, h, r, rp, why)
 		case k11Queued:
@@ -659,7 +674,7 @@ func (e *k11Env) onLockReply(k *k11Key, r *k11Req, rp *k11Reply) {
 					k.valSeq++
 					k.baseKnown = false
 				}
-			} else if h != nil && h.pending {
+			} else if h != nil && h.pending && rp.Result != protocol.RESULT_STATE_ERROR {
 				e.viol("C11:no-ack-waiting", "lock request #%d for a LockId that is awaiting acknowledgement was answered %s instead of LOCK_ACK_WAITING", r.Idx, aResultName(rp.Result))
 			}
 			r.State = k11Ended
@@ -711,12 +726,19 @@ func (e *k11Env) onUnlockReply(k *k11Key, r *k11Req, rp *k11Reply) {
 			e.info.ackWaitingUnlock++
 		}
 	default:
-		if h != nil && h.pending {
+		if h != nil && h.pending && rp.Result != protocol.RESULT_STATE_ERROR {
 			e.viol("C11:no-ack-waiting", "unlock #%d of a LockId that is awaiting acknowledgement was answered %s instead of LOCK_ACK_WAITING", r.Idx, aResultName(rp.Result))
 		} else if h != nil && (rp.Result == protocol.RESULT_UNLOCK_ERROR || rp.Result == protocol.RESULT_UNOWN_ERROR) {
 			e.viol("C11:ledger", "unlock #%d of an existing hold answered %s", r.Idx, aResultName(rp.Result))
 		}
 	}
+}
+
+func k11UndoKey(r *k11Req) string {
+	if r.exactUndo {
+		return "C11:value-not-restored"
+	}
+	return k11KeyRollback
 }
 
 // k11RollbackExact: is the roll-back of op's value operation exact in the current state? (domain outside
@@ -774,7 +796,7 @@ func k11SnapString(s *aSnapKey) string {
 	var sb strings.Builder
 	fmt.Fprintf(&sb, "locked=%d holders=[", s.Locked)
 	for _, h := range s.Holders {
-		fmt.Fprintf(&sb, "{id%d depth=%d ack=%d req#%d}", k11IdIdx(h.Id), h.Depth, h.AckCount, h.Req)
+		fmt.Fprintf(&sb, "{id%d depth=%d awaiting-ack=%v req#%d}", k11IdIdx(h.Id), h.Depth, h.AckCount != 0xff, h.Req)
 	}
 	sb.WriteString("] waiters=[")
 	for _, w := range s.Waiters {
@@ -834,8 +856,9 @@ func (e *k11Env) send(op k11Op) {
 		}
 	}
 	r := &k11Req{Idx: len(e.reqs), Op: op, Time: e.now, Terminal: -1, LockId: aLockId(op.Id), Key: aKey(op.Key)}
+	r.exactUndo = op.K == "lock" && op.V != nil && k11RollbackExact(e.db, op, before)
 	e.mu.Lock()
-	if h := k.holder(r.LockId); h != nil && h.pending {
+	if h := k.holder(r.LockId); h != nil && h.pending && (e.stuck == nil || e.stuck()) && e.inst.slock.state == STATE_LEADER {
 		r.expectAW = true
 	}
 	if op.K == "lock" && op.V != nil {
@@ -886,7 +909,7 @@ func (e *k11Env) send(op k11Op) {
 			e.viol("C11:no-ack-waiting", "request #%d (%v) targets a LockId whose hold awaits acknowledgement; expected LOCK_ACK_WAITING, got %s", r.Idx, op, got)
 		}
 		e.mu.Unlock()
-		if e.held {
+		if e.held || e.stuck != nil {
 			after := e.snapKey(aSnapshot(0, e.db), r.Key)
 			if a, b := k11SnapString(before), k11SnapString(after); a != b {
 				e.mu.Lock()
@@ -897,25 +920,29 @@ func (e *k11Env) send(op k11Op) {
 	}
 }
 
-func (e *k11Env) tick(n int) {
+func (e *k11Env) tickOne() {
 	d := e.db
+	e.now++
+	d.currentTime = e.now
+	c := d.checkTimeoutTime
+	d.checkTimeoutTime = e.now + 1
+	for ; c <= e.now; c++ {
+		for i := uint16(0); i < d.managerMaxGlocks; i++ {
+			d.checkTimeTimeOut(c, e.now, i, e.toQ[i])
+		}
+	}
+	c = d.checkExpriedTime
+	d.checkExpriedTime = e.now + 1
+	for ; c <= e.now; c++ {
+		for i := uint16(0); i < d.managerMaxGlocks; i++ {
+			d.checkTimeExpried(c, e.now, i, e.exQ[i])
+		}
+	}
+}
+
+func (e *k11Env) tick(n int) {
 	for s := 0; s < n; s++ {
-		e.now++
-		d.currentTime = e.now
-		c := d.checkTimeoutTime
-		d.checkTimeoutTime = e.now + 1
-		for ; c <= e.now; c++ {
-			for i := uint16(0); i < d.managerMaxGlocks; i++ {
-				d.checkTimeTimeOut(c, e.now, i, e.toQ[i])
-			}
-		}
-		c = d.checkExpriedTime
-		d.checkExpriedTime = e.now + 1
-		for ; c <= e.now; c++ {
-			for i := uint16(0); i < d.managerMaxGlocks; i++ {
-				d.checkTimeExpried(c, e.now, i, e.exQ[i])
-			}
-		}
+		e.tickOne()
 		if !e.held {
 			if !e.quiesce() {
 				return
@@ -931,7 +958,7 @@ func (e *k11Env) tick(n int) {
 func (e *k11Env) pendingUnanswered() []*k11Req {
 	var out []*k11Req
 	for _, r := range e.reqs {
-		if r.Op.K == "lock" && r.Op.Ack && r.Terminal < 0 && (r.State == k11Pending || r.State == k11New) {
+		if r.Op.K == "lock" && r.Op.Ack && r.Terminal < 0 && !r.doomed && (r.State == k11Pending || r.State == k11New) {
 			out = append(out, r)
 		}
 	}
@@ -1191,7 +1218,7 @@ func (e *k11Env) reconcile(where string) {
 				got, err := aDecodeFrame(s.Data)
 				e.info.valueRestoreSnapChecked++
 				if err != nil || !aValueEqual(got, r.pre) {
-					e.viol("C11:value-not-restored", "%s: key %d holds value %s (err %v) after ack request #%d (%v) failed; before the request it was %s", where, i, got.String(), err, r.Idx, r.Op, r.pre.String())
+					e.viol(k11UndoKey(r), "%s: key %d holds value %s (err %v) after ack request #%d (%v) failed; before the request it was %s", where, i, got.String(), err, r.Idx, r.Op, r.pre.String())
 					e.sig("stored op=%s before=%s after=%s", r.Op.V.Op, k11ValKind(r.pre), k11ValKind(got))
 				}
 			}
@@ -1311,7 +1338,7 @@ func (e *k11Env) step(op k11Op) bool {
 		e.mu.Lock()
 		for _, r := range e.reqs {
 			if r.State == k11Pending && r.Terminal < 0 && e.now-r.Time >= int64(r.Op.T)+3 {
-				e.viol("C11:ack-wait-not-timed-out", "request #%d (T=%d, sent at t+%d) is still awaiting acknowledgement at t+%d", r.Idx, r.Op.T, r.Time-k11Epoch, e.now-k11Epoch)
+				e.viol("C11:ack-wait-not-timed-out", "request #%d (T=%d, sent at t+%d) is still awaiting acknowledgement at t+%d", r.Idx, r.Op.T, r.Time-e.epoch, e.now-e.epoch)
 				r.Time = e.now + 1000
 			}
 		}
